@@ -634,3 +634,39 @@ package prover
 //@   ensures result == nil ==> ps2.TreeDepth == ps.TreeDepth && ps2.BatchSize == ps.BatchSize && ps2.ProvingKey.val == ps.ProvingKey.val &&
 //@              ps2.VerifyingKey.val == ps.VerifyingKey.val && ps2.ConstraintSystem.val == ps.ConstraintSystem.val
 //@   lemmas beInt_of_beByte pow256_4 tok_inj tok_cs_inj
+
+// ---------------------------------------------------------------------------------------
+// C12 — the import path builds the same circuit shape as setup / r1cs export
+// ---------------------------------------------------------------------------------------
+
+//@ func LoadProvingKey
+//@   property C12
+//@   ensures err == nil ==> called("ReadFrom")
+
+//@ func LoadVerifyingKey
+//@   property C12
+//@   ensures err == nil ==> called("ReadFrom")
+
+//@ func ImportInsertionSetup
+//@   property C12 C11
+//@   ensures (result1 != nil) == (isnil(result0))
+//@   ensures result1 == nil ==> deref(result0).TreeDepth == treeDepth && deref(result0).BatchSize == batchSize &&
+//@              deref(result0).ConstraintSystem == gnark.compiledIns(treeDepth, batchSize)
+//@   assert@return result1 == nil ==> origin(deref(result0).ProvingKey, "LoadProvingKey.0") && origin(deref(result0).VerifyingKey, "LoadVerifyingKey.0")
+//@   assert@before:LoadProvingKey arg0 == pkPath
+//@   assert@before:LoadVerifyingKey arg0 == vkPath
+//@   loop 1
+//@     invariant 0 <= i && i <= batchSize && len(proofs) == batchSize
+//@     invariant forall k :: 0 <= k && k < i ==> len(proofs[k]) == treeDepth
+
+//@ func ImportDeletionSetup
+//@   property C12 C11
+//@   ensures (result1 != nil) == (isnil(result0))
+//@   ensures result1 == nil ==> deref(result0).TreeDepth == treeDepth && deref(result0).BatchSize == batchSize &&
+//@              deref(result0).ConstraintSystem == gnark.compiledDel(treeDepth, batchSize)
+//@   assert@return result1 == nil ==> origin(deref(result0).ProvingKey, "LoadProvingKey.0") && origin(deref(result0).VerifyingKey, "LoadVerifyingKey.0")
+//@   assert@before:LoadProvingKey arg0 == pkPath
+//@   assert@before:LoadVerifyingKey arg0 == vkPath
+//@   loop 1
+//@     invariant 0 <= i && i <= batchSize && len(proofs) == batchSize
+//@     invariant forall k :: 0 <= k && k < i ==> len(proofs[k]) == treeDepth
